@@ -522,6 +522,34 @@ package stree
 //@   loop 1: invariant [C01,C03] below: forall j int :: {callarg(f, j)} old(ncalls(f)) <= j && j < ncalls(f) ==> (forall k int :: {k in n.keys} inK(n, k) ==> rank(cmp, callarg(f, j)) < k)
 //@   loop 1: invariant [C01,C03] ascending: forall a int, b int :: {callarg(f, a), callarg(f, b)} old(ncalls(f)) <= a && a < b && b < ncalls(f) ==> rank(cmp, callarg(f, a)) < rank(cmp, callarg(f, b))
 //@
+// inorderAfter: what is yielded are stored keys of the subtree, not smaller than key, in strictly ascending order, the
+// first of them being the least such key of the whole subtree (and when nothing is yielded and the walk was not
+// stopped, there is none). That *every* key >= key is yielded (no gaps further on) is not stated: bounded stand-in.
+//@ func (*node).inorderAfter
+//@   role compare ord
+//@   role f yield
+//@   requires [C01,C04] treeOK(n, compare)
+//@   ensures  [C01,C04] members: forall j int :: {callarg(f, j)} old(ncalls(f)) <= j && j < ncalls(f) ==> inK(n, rank(compare, callarg(f, j))) && rank(compare, callarg(f, j)) >= rank(compare, key) && callarg(f, j) == n.rep[rank(compare, callarg(f, j))]
+//@   ensures  [C01,C04] ascending: forall a int, b int :: {callarg(f, a), callarg(f, b)} old(ncalls(f)) <= a && a < b && b < ncalls(f) ==> rank(compare, callarg(f, a)) < rank(compare, callarg(f, b))
+//@   ensures  [C01,C04] first: ncalls(f) > old(ncalls(f)) ==> forall k int :: {k in n.keys} inK(n, k) && k >= rank(compare, key) ==> k >= rank(compare, callarg(f, old(ncalls(f))))
+//@   ensures  [C01,C04] none: result && ncalls(f) == old(ncalls(f)) ==> forall k int :: {k in n.keys} inK(n, k) ==> k < rank(compare, key)
+//@   ensures  [C01,C04] count: ncalls(f) >= old(ncalls(f))
+//@   ensures  [C01,C04] went: forall j int :: {callret(f, j)} old(ncalls(f)) <= j && j < ncalls(f) - 1 ==> callret(f, j)
+//@   ensures  [C01,C04] stopped: !result ==> ncalls(f) > old(ncalls(f)) && !callret(f, ncalls(f) - 1)
+//@   ensures  [C01,C04] older: forall j int :: {callarg(f, j)} {callret(f, j)} 0 <= j && j < old(ncalls(f)) ==> callarg(f, j) == old(callarg(f, j)) && callret(f, j) == old(callret(f, j))
+//@   modifies calls(f)
+//@   call inorder#1: cmp = compare
+//@   loop 1: invariant [C01,C04] idx: -1 <= i && i < len(path)
+//@   loop 1: invariant [C01,C04] older: forall j int :: {callarg(f, j)} {callret(f, j)} 0 <= j && j < old(ncalls(f)) ==> callarg(f, j) == old(callarg(f, j)) && callret(f, j) == old(callret(f, j))
+//@   loop 1: invariant [C01,C04] count: ncalls(f) >= old(ncalls(f))
+//@   loop 1: invariant [C01,C04] went: forall j int :: {callret(f, j)} old(ncalls(f)) <= j && j < ncalls(f) ==> callret(f, j)
+//@   loop 1: invariant [C01,C04] members: forall j int :: {callarg(f, j)} old(ncalls(f)) <= j && j < ncalls(f) ==> inK(n, rank(compare, callarg(f, j))) && rank(compare, callarg(f, j)) >= rank(compare, key) && callarg(f, j) == n.rep[rank(compare, callarg(f, j))]
+//@   loop 1: invariant [C01,C04] ascending: forall a int, b int :: {callarg(f, a), callarg(f, b)} old(ncalls(f)) <= a && a < b && b < ncalls(f) ==> rank(compare, callarg(f, a)) < rank(compare, callarg(f, b))
+//@   loop 1: invariant [C01,C04] below: i + 1 < len(path) ==> forall j int :: {callarg(f, j)} old(ncalls(f)) <= j && j < ncalls(f) ==> inK(path[i + 1], rank(compare, callarg(f, j))) || rank(compare, callarg(f, j)) < rank(compare, path[i + 1].X)
+//@   loop 1: invariant [C01,C04] nothing: ncalls(f) == old(ncalls(f)) && i + 1 < len(path) ==> forall k int :: {k in path[i + 1].keys} k in path[i + 1].keys ==> k < rank(compare, key)
+//@   loop 1: invariant [C01,C04] first: ncalls(f) > old(ncalls(f)) ==> forall k int :: {k in n.keys} inK(n, k) && k >= rank(compare, key) ==> k >= rank(compare, callarg(f, old(ncalls(f))))
+//@   loop 1: decreases i + 1
+//@
 //@ func (*Tree).Inorder
 //@   role yield yield
 //@   requires [C01,C04] treeInv(t) && sizeInv(t)
